@@ -41,11 +41,20 @@ Proof.
     destruct (beq x c) eqn:E; [|reflexivity]. cbn [andb]. apply IH.
 Qed.
 
-Lemma in_namespace_starts ns p : in_namespace ns p = true -> starts_with ns p = true.
+(* the repaired path_namespace test (fix 8cf9b673) is the specification's *)
+Lemma strip_prefix_slash ns : forall p,
+  match strip_prefix ns p with Some (c :: _) => beq c "/" | _ => false end = starts_with (ns ++ [slash]) p.
 Proof.
-  unfold in_namespace. intros H. apply orb_true_iff in H as [H|H].
-  - apply lbeq_eq in H. subst. apply starts_with_refl.
-  - destruct (lbeq ns [slash]); [exact H|]. now apply starts_with_app_l in H.
+  induction ns as [|x ns IH]; intros p.
+  - destruct p as [|c p]; [reflexivity|]. cbn [strip_prefix app starts_with]. unfold slash.
+    rewrite (beq_sym "/" c). now rewrite andb_true_r.
+  - destruct p as [|c p]; [reflexivity|]. cbn [strip_prefix app starts_with].
+    destruct (beq x c); [apply IH|reflexivity].
+Qed.
+Lemma ns_covers_spec ns p : ns_covers ns p = in_namespace ns p.
+Proof.
+  unfold ns_covers, in_namespace. rewrite strip_prefix_slash. change (B "/") with [slash].
+  destruct (lbeq p ns), (lbeq ns [slash]); cbn; try reflexivity.
 Qed.
 
 Lemma forallb_cong_ex {A} (k f g : A -> bool) l :
@@ -63,8 +72,7 @@ Hypothesis Hlocal : local r m = true.
 Hypothesis Hknown : known_C21 r m = false.
 
 Lemma known_parts :
-  k_dest_absent r m = false /\ k_path_ns_prefix r m = false /\ k_arg_path r m = false /\
-  k_sole_struct r m = false /\ k_arg0ns_untyped r m = false.
+  k_arg_path r m = false /\ k_sole_struct r m = false /\ k_arg0ns_untyped r m = false.
 Proof.
   unfold known_C21 in Hknown. repeat (apply orb_false_iff in Hknown as [Hknown ?]). auto.
 Qed.
@@ -86,24 +94,22 @@ Proof. unfold chk_member, s_field. destruct (r_member r), (m_member m); reflexiv
 
 Lemma c_destination : chk_destination r m = s_destination owns r m.
 Proof.
-  destruct known_parts as (Hk & _). unfold chk_destination, s_destination, k_dest_absent, local in *.
+  unfold chk_destination, s_destination, local in *.
   destruct (r_destination r) as [d|]; [|reflexivity].
-  destruct (m_destination m) as [[u|w]|]; try reflexivity; try discriminate.
+  destruct (m_destination m) as [[u|w]|]; try reflexivity.
   destruct (r_sender r) as [[?|?]|]; cbn in Hlocal; discriminate.
 Qed.
 
 Lemma c_path : chk_path r m = s_path r m.
 Proof.
-  destruct known_parts as (_ & Hk & _). unfold chk_path, s_path, k_path_ns_prefix in *.
+  unfold chk_path, s_path.
   destruct (r_path r) as [[p|ns]|]; [| |reflexivity]; destruct (m_path m) as [mp|]; try reflexivity.
-  destruct (in_namespace ns mp) eqn:E.
-  - now apply in_namespace_starts.
-  - cbn in Hk. now rewrite andb_true_r in Hk.
+  apply ns_covers_spec.
 Qed.
 
 Lemma c_arg0ns : chk_arg0ns r m = s_arg0ns r m.
 Proof.
-  destruct known_parts as (_ & _ & _ & _ & Hk). unfold chk_arg0ns, s_arg0ns, k_arg0ns_untyped in *.
+  destruct known_parts as (_ & _ & Hk). unfold chk_arg0ns, s_arg0ns, k_arg0ns_untyped in *.
   destruct (r_arg0ns r) as [ns|]; [|reflexivity].
   destruct (m_body m) as [|a0 rest]; [reflexivity|].
   destruct a0; try discriminate. cbn [arg0_raw]. rewrite bus_ok.
@@ -112,7 +118,7 @@ Qed.
 
 Lemma c_args : chk_args r m = forallb (s_arg (m_body m)) (r_args r) && forallb (s_arg_path (m_body m)) (r_arg_paths r).
 Proof.
-  destruct known_parts as (_ & _ & Hp & Hs & _). unfold chk_args, k_sole_struct, has_args, k_arg_path in *.
+  destruct known_parts as (Hp & Hs & _). unfold chk_args, k_sole_struct, has_args, k_arg_path in *.
   destruct (is_nil (r_args r) && is_nil (r_arg_paths r)) eqn:En.
   - apply andb_true_iff in En as [E1 E2]. destruct (r_args r); [|discriminate]. destruct (r_arg_paths r); [|discriminate]. reflexivity.
   - cbn [negb andb] in Hs.
@@ -154,14 +160,14 @@ Lemma matches_no_false_negative owns r m :
   known_C21 r m = false -> matches_spec owns r m = true -> matches r m = Ok true.
 Proof.
   intros Hk Hs. unfold matches, matches_b. f_equal.
-  rewrite c_type, c_interface, c_member, (c_path r m Hk), (c_arg0ns r m Hk), (c_args r m Hk).
+  rewrite c_type, c_interface, c_member, c_path, (c_arg0ns r m Hk), (c_args r m Hk).
   unfold matches_spec in Hs. repeat (apply andb_true_iff in Hs as [Hs ?]).
   assert (chk_sender r m = true) as ->.
   { unfold chk_sender, s_sender in *. destruct (r_sender r) as [[u|w]|]; try reflexivity.
     destruct (m_sender m); [assumption|discriminate]. }
   assert (chk_destination r m = true) as ->.
   { unfold chk_destination, s_destination in *. destruct (r_destination r) as [d|]; [|reflexivity].
-    destruct (m_destination m) as [[u|w]|]; try reflexivity. assumption. }
+    destruct (m_destination m) as [[u|w]|]; [assumption|reflexivity|discriminate]. }
   repeat match goal with H : _ = true |- _ => rewrite H; clear H end. reflexivity.
 Qed.
 
@@ -178,12 +184,13 @@ Definition counterexample (ops : list bop) (m : msg) (code : bool) : Prop :=
   exists r, build ops = Ok r /\ local r m = true /\ matches r m = Ok code /\
             forall owns, matches_spec owns r m = negb code.
 
-Lemma dest_absent_refuted :
-  counterexample [ODest (B ":1.5")] (sig_msg (B "/a") None []) true.
-Proof. eexists. split; [reflexivity|]. repeat split. Qed.
-
-Lemma path_ns_prefix_refuted :
-  counterexample [OPathNs (B "/a")] (sig_msg (B "/ab") None []) true.
+(* repaired by fix 8cf9b673: the former counterexamples now get the specification's verdict *)
+Example dest_absent_fixed : exists r, build [ODest (B ":1.5")] = Ok r /\
+  matches r (sig_msg (B "/a") None []) = Ok false /\ known_C21 r (sig_msg (B "/a") None []) = false.
+Proof. eexists. split; [reflexivity|]. split; reflexivity. Qed.
+Example path_ns_prefix_fixed : exists r, build [OPathNs (B "/a")] = Ok r /\
+  matches r (sig_msg (B "/ab") None []) = Ok false /\ matches r (sig_msg (B "/a/b") None []) = Ok true /\
+  matches r (sig_msg (B "/a") None []) = Ok true /\ known_C21 r (sig_msg (B "/ab") None []) = false.
 Proof. eexists. split; [reflexivity|]. repeat split. Qed.
 
 Lemma arg_path_string_refuted :
@@ -204,14 +211,12 @@ Proof. eexists. split; [vm_compute; reflexivity|]. repeat split. Qed.
 
 Lemma full_refuted : ~ C21_full_statement.
 Proof.
-  intros H. destruct dest_absent_refuted as (r & _ & Hl & Hm & Hs).
+  intros H. destruct sole_struct_refuted as (r & _ & Hl & Hm & Hs).
   specialize (H (fun _ _ => false) _ _ Hl). rewrite Hm, Hs in H. discriminate.
 Qed.
 
 (* each witness lies in the class named after it, and in no earlier one *)
 Lemma witnesses_classified :
-  (forall r, build [ODest (B ":1.5")] = Ok r -> class_of r (sig_msg (B "/a") None []) = B "dest_absent") /\
-  (forall r, build [OPathNs (B "/a")] = Ok r -> class_of r (sig_msg (B "/ab") None []) = B "path_ns_prefix") /\
   (forall r, build [OArgPath 0 (B "/a")] = Ok r -> class_of r (sig_msg (B "/") None [AStr (B "/a")]) = B "arg_path_rules") /\
   (forall r, build [OArg 0 (B "x")] = Ok r -> class_of r (sig_msg (B "/") None [AStructSU (B "x") 7]) = B "sole_struct_flattened") /\
   (forall r, build [OArg0ns (B "a")] = Ok r ->
